@@ -16,7 +16,9 @@ for tc in ET.parse(junit).getroot().iter("testcase"):
     if not any(ch.tag in ("failure", "error", "skipped") for ch in tc):
         passed.add(f"{tc.get('classname')}::{tc.get('name')}")
 missing = [t for t in base["stable_pass"] if t not in passed]
-print(f"stable_pass={len(base['stable_pass'])} passed_now={len(passed)} missing={len(missing)} log={out}")
+print(f"stable_pass={len(base['stable_pass'])} passed_now={len(passed)} missing={len(missing)}")
 for t in missing[:20]:
     print("  NOT PASSING:", t)
+import shutil
+shutil.rmtree(out, ignore_errors=True)
 sys.exit(1 if missing else 0)
